@@ -100,7 +100,10 @@ async def execute_server_command(future_loop, result_future, klong, command, nc)
         else:
             response = klong(str(command))
         if isinstance(response, KGFn):
-            response = KGRemoteFnRef(response.arity)
+            # a projection takes as many arguments as it has open slots, not as many as the function it projects
+            fixed = response.args if isinstance(response.args, list) else []
+            holes = sum(1 for a in fixed if a is None)
+            response = KGRemoteFnRef(holes if holes else response.arity)
         elif isinstance(response, KGLambda):
             # TODO: move to using .arity for KGLambda
             response = KGRemoteFnRef(response.get_arity())
